@@ -379,11 +379,11 @@ macro_rules! fold_harness {
         }
     };
 }
-fold_harness!(c01_k2_fold_live0, 0, false, false, 2);
-fold_harness!(c01_k2_fold_live1, 1, false, false, 3);
+fold_harness!(c01_k2_fold_live0, 0, false, false, 6);
+fold_harness!(c01_k2_fold_live1, 1, false, false, 6);
 fold_harness!(c01_k2_fold_live2, 2, false, false, 4);
 fold_harness!(c01_k2_fold_live3, 3, false, false, 5);
-fold_harness!(c01_k2_fold_dead_only, 0, true, false, 3);
+fold_harness!(c01_k2_fold_dead_only, 0, true, false, 6);
 fold_harness!(c01_k2_fold_dead_then_live1, 1, true, false, 4);
 fold_harness!(c01_k2_fold_live1_then_dead, 1, false, true, 4);
 fold_harness!(c01_k2_fold_live2_then_dead, 2, false, true, 5);
